@@ -211,6 +211,7 @@ def run_case(case, prefix=None):
         tx.open_tx_pipe(addrs[case["pipe"]])  # documented: (re-)open the TX pipe after pipe 0 was given an RX address
     else:
         pp = None
+    failed_pending = False  # a payload that failed while the peer was deaf may still sit in the TX FIFO
     for ci, call in enumerate(case["calls"]):
         objs, befores, exps = [], [], []
         for h, typ in call["items"]:
@@ -224,10 +225,11 @@ def run_case(case, prefix=None):
             continue
         arg = objs[0] if not is_list else (list(objs) if call["form"] == "list" else tuple(objs))
         deaf = bool(call.get("deaf")) and not pp and call["form"] != "write"
-        if call["form"] == "write" and ci and case["calls"][ci - 1].get("deaf"):
+        if call["form"] == "write" and failed_pending:
             # write() is the non-blocking entry point: managing a failed payload and the flags is the caller's job there
             tx.flush_tx()
             tx.clear_status_flags()
+        failed_pending = deaf
         if deaf:
             rx.listen = False  # the peer's application stops listening for the duration of this call: nothing can arrive
             sim.advance(300 * US)
